@@ -442,3 +442,37 @@ def run_function(fn_node: ast.FunctionDef | ast.AsyncFunctionDef, env: dict[str,
     except _Return as r_:
         return r_.node, r_.env
     return None, env
+
+
+def with_helpers(functions: dict[str, Any], oracle: Oracle | None = None) -> Oracle:
+    """An oracle that also interprets calls to plain functions of the analysed module (`functions`: name -> FuncInfo): a private helper a decision
+    was extracted into is evaluated with the rest (positional / keyword arguments, literal defaults)."""
+    def orc(call: ast.Call, env: dict[str, Any]) -> Any:
+        if oracle is not None:
+            v = oracle(call, env)
+            if v is not NotImplemented:
+                return v
+        if isinstance(call.func, ast.Name) and call.func.id in functions:
+            fn = functions[call.func.id]
+            node = fn.node
+            params = [a.arg for a in node.args.args]
+            if node.args.vararg or node.args.kwarg or any(isinstance(a, ast.Starred) for a in call.args) or len(call.args) > len(params):
+                return NotImplemented
+            bound = {p: eval_expr(a, env, orc) for p, a in zip(params, call.args)}
+            for k in call.keywords:
+                if k.arg is None or k.arg in bound:
+                    return NotImplemented
+                bound[k.arg] = eval_expr(k.value, env, orc)
+            defaults = dict(zip(reversed(params), reversed(node.args.defaults)))
+            for a, d in zip(node.args.kwonlyargs, node.args.kw_defaults):
+                if d is not None:
+                    defaults[a.arg] = d
+            for p in params + [a.arg for a in node.args.kwonlyargs]:
+                if p not in bound:
+                    if p not in defaults:
+                        return NotImplemented
+                    bound[p] = eval_expr(defaults[p], {}, orc)
+            ret, env2 = run_function(node, bound, orc)
+            return eval_expr(ret.value, env2, orc) if ret is not None and ret.value is not None else None
+        return NotImplemented
+    return orc
